@@ -153,6 +153,49 @@ class Hostile:
             m = {'spi_i': sess.spi_i, 'spi_r': sess.spi_r, 'exchange': 35, 'msgid': sa.my_msg_id if resp else sa.peer_msg_id,
                  'flags': {'response': resp, 'initiator': b_is_init}, 'payloads': [], 'inner': inner}
             return b_addr, bytes(W.encode_protected(m, sess.dir_keys(b_is_init), bytes(16))), 'authenticated:binary-identity'
+        if k == 'auth_body':
+            # an SK payload with a correct checksum whose body is not a proper IV | ciphertext: nothing, the IV alone, a
+            # ciphertext that is no whole number of blocks, a pad length beyond the plaintext
+            sess, sa = self.session_ab()
+            if sess is None:
+                return None
+            b_is_init = (s.b.addrs[0] == sess.init_addr)
+            resp = bool(h[2])
+            hd = bytearray(28)
+            hd[0:8], hd[8:16] = bytes.fromhex(sess.spi_i), bytes.fromhex(sess.spi_r)
+            hd[17], hd[18] = 0x20, [37, 36, 35][h[3] % 3]
+            hd[19] = (0x20 if resp else 0) | (0x08 if b_is_init else 0)
+            hd[20:24] = struct.pack('>L', sa.my_msg_id if resp else sa.peer_msg_id)
+            keys = sess.dir_keys(b_is_init)
+            iv = bytes((11 * i + 3) & 0xFF for i in range(16))
+            variant = h[1] % 6
+            if variant <= 2:
+                body = [b'', iv, iv + bytes(15)][variant]
+                data = K.seal(bytes(hd), [0, 41, 33][h[3] % 3], body, keys['sk_a'], keys['integ'])
+            else:
+                plain = [bytes(15) + b'\xff', bytes(31) + b'\x20', bytes(16)][variant - 3]
+                data = K.protect_raw(bytes(hd), [0, 41, 33][h[3] % 3], plain, keys['sk_e'], keys['sk_a'], keys['integ'], iv)
+            return b_addr, data, 'authenticated:sk-body:' + ['empty', 'iv-only', 'ragged', 'pad-ff', 'pad-beyond', 'zeros'][variant]
+        if k == 'to_sa':
+            # a cleartext message of any exchange type / direction / Message ID whose header selects an IKE_SA of the victim in
+            # whatever state it is in (also before it has keys)
+            sas = list(s.a.sas)
+            if not sas:
+                return None
+            q = sas[h[1] % len(sas)]
+            mine, theirs = bytes(q.my_spi), bytes(q.peer_spi).ljust(8, b'\0')[:8]
+            if h[5]:
+                theirs = bytes(8)
+            spi_i, spi_r = (mine, theirs) if q.is_initiator else (theirs, mine)
+            resp = bool(h[3])
+            flags = (0x20 if resp else 0) | (0 if q.is_initiator else 0x08)
+            mid = [0, 1, q.peer_msg_id, q.my_msg_id, 2 ** 32 - 1][h[4] % 5]
+            chains = [(0, b'')] + [(f, bytes(c)) for _, _, f, c in corpus.inner_bytes()]
+            first, chain = chains[h[6] % len(chains)]
+            exch = [34, 35, 36, 37, 38, 0, 255][h[2] % 7]
+            data = spi_i + spi_r + bytes([first, 0x20, exch, flags]) + struct.pack('>LL', mid, 28 + len(chain)) + chain
+            src = str(q.peer_addr)
+            return src, data, f'cleartext-to-ike-sa:{q.state.name}'
         if k == 'xfrm':
             return 'xfrm', bytes.fromhex(h[1]), 'xfrm-raw'
         if k == 'acq':
@@ -340,6 +383,9 @@ hostile = st.one_of(
     st.tuples(st.just('auth'), st.integers(0, 7), st.lists(mut_op, max_size=2), st.integers(0, 4)).map(list),
     st.tuples(st.just('auth'), st.integers(0, 7), st.lists(mut_op, max_size=2), st.just(0)).map(list),
     st.tuples(st.just('auth_id'), st.integers(0, 255), st.integers(0, 6)).map(list),
+    st.tuples(st.just('auth_body'), st.integers(0, 5), st.booleans(), st.integers(0, 2)).map(list),
+    st.tuples(st.just('to_sa'), st.integers(0, 3), st.integers(0, 6), st.booleans(), st.integers(0, 4), st.booleans(),
+              st.integers(0, 8)).map(list),
     st.tuples(st.just('xfrm'), st.binary(min_size=0, max_size=300).map(bytes.hex)).map(list),
     st.tuples(st.just('acq'), st.sampled_from(['no_tmpl', 'unknown_peer', 'unknown_index', 'sel_family', 'dir_in', 'truncated',
                                                'type']), st.integers(0, 255)).map(list),
@@ -411,6 +457,20 @@ def trigger_grid_cases():
                 out.append({'cfg': {'dh': '19', 'mode': 'transport'}, 'final_side': 'c',
                             'ops': est + [trig[t1], trig[t2], ['deliver_pair', 'a', 'c', 0], trig[t3],
                                           ['deliver_pair', 'a', 'c', 0], ['deliver_pair', 'a', 'c', 0]]})
+    # every exchange type / direction / Message ID in the clear to an IKE_SA of the victim in every state of a handshake it
+    # started or answered, then the handshake goes on; and every malformed-but-authentic SK body to the established IKE_SA
+    DP = ['deliver_pair', 'a', 'b', 0]
+    for who in 'ab':
+        for n_del in (0, 1, 2, 3, 4):
+            pre = [['acquire', who, 0, 1]] + [DP] * n_del
+            for exch in range(4):
+                for resp in (False, True):
+                    hs = [['H', ['to_sa', 0, exch, resp, mid, zero, ch]] for mid in (0, 1) for zero in (False, True) for ch in (0, 3)]
+                    out.append({'cfg': {'dh': '19', 'mode': 'transport'}, 'final_side': 'a', 'ops': pre + hs + [DP] * 4})
+    est_b = [['acquire', 'b', 0, 1]] + [DP] * 4
+    for v in range(6):
+        out.append({'cfg': {'dh': '19', 'mode': 'transport'}, 'final_side': 'a',
+                    'ops': est_b + [['H', ['auth_body', v, r, e]] for r in (False, True) for e in range(3)]})
     for when in ('handshake', 'acquire', 'dpd', 'rekey_ike', 'del_ike'):
         for dt in (0.5, 1.0, 3.0):
             out.append({'kind': 'unreachable', 'cfg': {'dh': '19', 'mode': 'transport'}, 'when': when, 'dt': dt, 'ops': []})
